@@ -260,7 +260,14 @@ CLAIMS["C06"] = {
             "open request is never refused for the 12 kinds that depend on nothing else (reply_to_open_request_is_not_refused), the "
             "other five have their second condition stated; call / destroy replies are never refused; for every serial-less message "
             "(items, capacity, end claimed / closed, current bus events, current-finished) the exact client state that accepts it. "
-            "The composed statement (the broker only ever sends what the client accepts, under every schedule) is NOT a theorem: it is "
+            "On the composed system (broker model, one client model per connection, two order-preserving queues per connection, EVERY "
+            "interleaving of sends, broker turns, other broker events, client turns, clients going away): every serial reply on its way "
+            "to a client names a serial in the client's map of that kind (replies_carry_open_serials, 16 kinds), so no reply of the 11 "
+            "plain kinds is ever refused (broker_replies_never_refused); this rests on step_msg_reply / step_other_no_reply (one turn of "
+            "the broker model answers a request at most once, to the requester, under its kind and serial, and emits no other serial "
+            "reply: all 35 handlers, connection clean-up, deferred-work loop) and assumes only that a client does not reuse an open "
+            "serial (SerialMap::insert; checked on every trace line of the real client). "
+            "The composed statement for the serial-less messages and the replies with a second condition is NOT a theorem: it is "
             "tied by runs of real clients against a real broker under PRNG-chosen schedules on FIFO sizes 1..16 and unbounded, whose "
             "transport traces are replayed through the model, with implementation-only oracles for panics, unexpected-message stops, "
             "completion at quiescence (lost wake-ups, deadlock), call-result consistency and an idle broker stopping.",
